@@ -1,4 +1,5 @@
 import HexModel.Core.Hexital
+import HexProofs.Access.SurfaceWrites
 import HexModel.Core.Input
 /-
 C19 – Reading state and converting input have no hidden side effects.
@@ -173,5 +174,70 @@ example : (Candle.fromList (F := Int) [.num (.int 1), .num (.int 2), .num (.int 
 
 example : Fresh ({ o := .int 1, h := .int 2, l := .int 0, c := .int 1, v := .int 7, ts := some 60 } : Candle Int) := by
   simp [Fresh]
+
+/-- **ISO-8601 string timestamps**: the ISO dict form decodes to the very same candles as every other encoding -/
+theorem encodings_agree_iso (cs : List (Candle F)) (hf : ∀ c ∈ cs, Fresh c) :
+    decodeAny (.valid (.dicts (cs.map encodeDictIso))) = .ok cs ∧
+    decodeAny (.valid (.dicts (cs.map encodeDictIso))) = decodeAny (.valid (.candles cs)) ∧
+    decodeAny (.valid (.dicts (cs.map encodeDictIso))) = decodeAny (.valid (.dicts (cs.map encodeDict))) :=
+  Surf.encodings_agree_iso cs hf
+
+theorem encodings_agree_iso_single (c : Candle F) (hf : Fresh c) :
+    decodeAny (.valid (.dict (encodeDictIso c))) = .ok [c] ∧
+    decodeAny (.valid (.dict (encodeDictIso c))) = decodeAny (.valid (.candle c)) :=
+  Surf.encodings_agree_iso_single c hf
+
+/-- foreign objects are `TypeError`s: nothing is decoded, nothing appended -/
+theorem foreign_input_rejected :
+    decodeAny (F := F) .otherObject = .error .typeError ∧ decodeAny (F := F) .listOfOther = .error .typeError :=
+  Surf.decodeAny_foreign
+
+/-- the read-only operations of the surface are functions of the state returning a value -/
+def read_only_surface : Surf.ReadOnlySurface F := Surf.readOnlySurface F
+
+/-- **`purge(name)` removes exactly the entries under `name`** (everything else, in order, is kept) -/
+theorem purge_name_exact (m : Manager F) (name : String) :
+    (m.purgeName name).cfg = m.cfg ∧
+    (m.purgeName name).candles = m.candles.map (fun c =>
+      { c with inds := c.inds.filter (fun p => p.1 ≠ name), subs := c.subs.filter (fun p => p.1 ≠ name) }) ∧
+    AgreeOff [name] m.candles (m.purgeName name).candles ∧
+    (∀ c ∈ (m.purgeName name).candles, dlookup name c.inds = none ∧ dlookup name c.subs = none) :=
+  ⟨rfl, Surf.purgeName_candles m name, Surf.purgeName_agree m name, fun c hc => Surf.purgeName_removes m name c hc⟩
+
+theorem purge_name_other_readings (m : Manager F) (name other : String) (hne : other ≠ name)
+    (hp : (splitDot other).headD "" ≠ name) :
+    (m.purgeName name).candles.map (fun c => readingByCandle c other) =
+      m.candles.map (fun c => readingByCandle c other) := Surf.purgeName_other_readings m name other hne hp
+
+/-- **the tag setter changes only the tag of one candle, or raises** -/
+theorem tag_at_ok (m m' : Manager F) (i : Int) (h : m.tagAt i = .ok m') :
+    ∃ hv : validIndex i m.candles.length = true,
+      m'.cfg = m.cfg ∧ m'.candles.length = m.candles.length ∧
+      (∀ j, j ≠ Surf.normIdx i m.candles.length → m'.candles[j]? = m.candles[j]?) ∧
+      (m.candles[Surf.normIdx i m.candles.length]'(Surf.normIdx_lt _ _ hv)).tag = false ∧
+      m'.candles[Surf.normIdx i m.candles.length]? =
+        some (Surf.retag (m.candles[Surf.normIdx i m.candles.length]'(Surf.normIdx_lt _ _ hv))) ∧
+      (∀ name, m'.candles.map (fun c => readingByCandle c name) = m.candles.map (fun c => readingByCandle c name)) :=
+  Surf.tagAt_ok m m' i h
+
+theorem tag_at_error (m : Manager F) (i : Int) (e : PyErr) (h : m.tagAt i = .error e) :
+    e = .indexError ∨ e = .alreadyTagged := Surf.tagAt_error m i e h
+
+/-- **`Candle.__eq__`**: what is compared, reflexivity without NaN, symmetry; the tag and clean values play no part -/
+theorem candle_eq_iff (a b : Candle F) :
+    a.pyEq (some b) = true ↔
+      (a.o.eq b.o = true ∧ a.h.eq b.h = true ∧ a.l.eq b.l = true ∧ a.c.eq b.c = true ∧ a.v.eq b.v = true ∧
+       a.ts = b.ts ∧ dictPyEq Val.pyEq a.inds b.inds = true ∧ dictPyEq Val.pyEq a.subs b.subs = true) :=
+  Surf.candle_pyEq_iff a b
+theorem candle_eq_refl (a : Candle F) (ha : Surf.CandleEqDomain a) : a.pyEq (some a) = true := Surf.candle_pyEq_refl a ha
+theorem candle_eq_symm (hs : Surf.BeqSymm F) (a b : Candle F) (ha : Surf.CandleEqDomain a) (hb : Surf.CandleEqDomain b) :
+    a.pyEq (some b) = b.pyEq (some a) := Surf.candle_pyEq_symm hs a b ha hb
+theorem candle_eq_ignores_tag_clean (a b : Candle F) (t t' : Bool) (k k' : Option (Clean F)) :
+    ({ a with tag := t, clean := k } : Candle F).pyEq (some { b with tag := t', clean := k' }) = a.pyEq (some b) := rfl
+
+/-- **`CandleManager.__eq__`** compares exactly lifespan, timeframe string and fill -/
+theorem manager_eq_iff (m m' : Manager F) (t t' : Option String) :
+    (m.ident t).pyEq (some (m'.ident t')) = true ↔
+      (m.cfg.lifespan = m'.cfg.lifespan ∧ t = t' ∧ m.cfg.fill = m'.cfg.fill) := Surf.manager_eq_iff m m' t t'
 
 end Hex.C19
